@@ -63,6 +63,12 @@ def decRet : Sx → Option Rtn.AliasRet
   | .sym "raised" => some .raised
   | _ => none
 
+def decHop : Sx → Option Hist.Op
+  | .list [.sym "deliver", l] => do pure (.deliver (← asCodes l))
+  | .sym "finish" => some .finish
+  | .sym "read" => some .read
+  | _ => none
+
 def decStage : Sx → Option Rtn.Stage
   | .list [.sym "proc", e] => do pure (.proc (← asInt e))
   | .list [.sym "alias", r] => do pure (.alias (← decRet r))
@@ -112,6 +118,10 @@ def handle (op : String) (args : List Sx) : Option Sx :=
     | "canon" => pure (ofBytes (Shape.canon b))
     | _ => none
   | "c06.fmt", [lines] => do pure (ofBytes (Shape.fmtLines (← asFrags lines)))
+  | "c06.hist", [stale, ops] => do
+    let ops ← asListOf decHop ops
+    let rs := Hist.run (← asBool stale) Hist.init ops
+    pure (.list [.list (rs.map fun r => .list [ofBool r.1, ofBytes r.2]), ofBytes (Shape.fmtLines (Hist.delivered false ops))])
   | "c06.rtn", [stages] => do
     let st ← asListOf decStage stages
     pure (.list [.int (Rtn.pipelineRc st), .list ((Rtn.pipestatus st).map Sx.int)])
